@@ -112,6 +112,10 @@ def tlv_desc(t):
         return f"<unpackable {type(e).__name__}>"
 
 
+def _nm(x):
+    return getattr(x, "name", repr(x))
+
+
 def pdesc(pdu) -> dict:
     """JSON-able, value-complete description of a PDU (used for observations and oracles)."""
     d = {
@@ -136,16 +140,16 @@ def pdesc(pdu) -> dict:
         opts = pdu.options_as_tlv()
         d.update(T="MD", size=pdu.file_size, sname=pdu.source_file_name, dname=pdu.dest_file_name,
                  cks=pdu.checksum_type.name, closure=bool(pdu.closure_requested),
-                 opts=None if opts is None else [tlv_desc(o) for o in opts])
+                 opts=None if not opts else [tlv_desc(o) for o in opts])
     elif dt == DirectiveType.EOF_PDU:
-        d.update(T="EOF", cond=pdu.condition_code.name, size=pdu.file_size, cks=pdu.file_checksum.hex(),
+        d.update(T="EOF", cond=_nm(pdu.condition_code), size=pdu.file_size, cks=pdu.file_checksum.hex(),
                  floc=tlv_desc(pdu.fault_location))
     elif dt == DirectiveType.FINISHED_PDU:
-        d.update(T="FIN", cond=pdu.condition_code.name, deliv=pdu.delivery_code.name, fstat=pdu.file_status.name,
+        d.update(T="FIN", cond=_nm(pdu.condition_code), deliv=_nm(pdu.delivery_code), fstat=_nm(pdu.file_status),
                  floc=tlv_desc(pdu.fault_location))
     elif dt == DirectiveType.ACK_PDU:
-        d.update(T="ACK", of=pdu.directive_code_of_acked_pdu.name, cond=pdu.condition_code_of_acked_pdu.name,
-                 status=pdu.transaction_status.name)
+        d.update(T="ACK", of=_nm(pdu.directive_code_of_acked_pdu), cond=_nm(pdu.condition_code_of_acked_pdu),
+                 status=_nm(pdu.transaction_status))
     elif dt == DirectiveType.NAK_PDU:
         d.update(T="NAK", scope=[pdu.start_of_scope, pdu.end_of_scope],
                  reqs=[list(r) for r in (pdu.segment_requests or [])])
